@@ -843,6 +843,11 @@ def c06(run, an=None):
                 out.append(V("C06", "refusal-left-trace", f"{a.raw} -> {b.raw}", step=st.idx))
         if any(re.match(r"ret (poll|recv|drive) err Resource.InflightExhausted", e) for e in st.events):
             out.append(V("C06", "qos2-exchange-dropped", "InflightExhausted while processing an acknowledgement", step=st.idx))
+        # the remaining quota never exceeds the negotiated maximum (QuotaP; C06_quota_books_balance): a
+        # quota above it lets the client start more exchanges than the broker's Receive Maximum, whatever
+        # has been replayed (this is not the F5c history: there the quota is 0)
+        if st.state is not None and st.state.live == "1" and st.state.q > st.state.qmax:
+            out.append(V("C06", "quota-above-maximum", f"send quota {st.state.q} > maximum {st.state.qmax}: {st.state.raw[:120]}", step=st.idx))
         if st.state is not None:
             prev = st
     return out
